@@ -147,6 +147,8 @@ def run(tier, res, force_search=False):
                 leap = rng.random() < 0.5
                 if leap:
                     y0 -= y0 % 4
+                if rng.random() < 0.15:
+                    y0 = rng.choice([2099, 2100, 2120, 1920])  # spans touching a century year that is not a leap year
                 if scen == "equal-shifted":
                     n_ref = 365 * 3 + rng.randint(0, 40)
                     dO = probes.dates_from(datetime.date(y0 - 20, 1, 1), n_ref)
@@ -167,9 +169,10 @@ def run(tier, res, force_search=False):
                 Ln, Sn = L + (L % 2 == 0), S + (S % 2 == 0)
                 k_near = Ln // 2 + Sn // 2
                 o, h, f = probes.tas_like(nprs, dO, 283, 3), probes.tas_like(nprs, dH, 285, 4), probes.tas_like(nprs, dF, 287, 4)
-                with warnings.catch_warnings():
-                    warnings.simplefilter("ignore")
-                    doyO, doyH, doyF = day_of_year(dO), day_of_year(dH), day_of_year(dF)
+                # the neighbourhood is defined by the CALENDAR day of year, computed independently of the library
+                doyO, doyH, doyF = probes.indep_doy(dO), probes.indep_doy(dH), probes.indep_doy(dF)
+                for dd in (dO, dH, dF):
+                    probes.check_calendar(dd, problems, what="locality/calendar")
                 corrected_doy = doyO if name == "DeltaChange" else doyF
                 cand = [i for i, d in enumerate(corrected_doy) if d in (1, 2, 365, 366, 59, 60)]
                 ti = rng.choice(cand) if cand and rng.random() < 0.5 else rng.randrange(corrected_doy.size)
